@@ -228,7 +228,8 @@ CLAIMED['C14'] = dict(
          'node-by-node invariant); FOR canonical_form (Props/C14d): canonical_total - on an accepted property whose split positions bind no alias '
          'every copy passes the sanity check and the result is a non-empty list, canonical_total_noRef - the same whenever no event references an '
          'alias bound in a split position (the known finding, negated); canonical_ok_iff - canonical_form succeeds exactly when nothing is '
-         'split or every copy is WellScoped by itself (the known finding is the only way it fails); and for the two replacements (replace_roundtrip_parsed, Props/C13d).',
+         'split or every copy is WellScoped by itself (the known finding is the only way it fails); and for the two replacements (replace_roundtrip_parsed, Props/C13d). Props/C14e states one theorem per '
+         'function on parser output combining totality, result kind and meaning (refactor_parsed, splitAnd_parsed, canonical_exists_and_means).',
     design_ref='DESIGN.md §6 C14',
     note='PARTIAL: totality is a theorem for refactor_reference, split_and, canonical_form (no alias in a split position) and the this/var '
          'replacements; for simplify it is established by correspondence and by the four crash defects found and fixed (AssertionError, UnboundLocalError, '
